@@ -5,6 +5,17 @@ PROP = "C01"
 THEOREMS = [tuple(x) for x in json.load(open(os.path.join(VERIF, "lib", "pins", PROP + ".json")))]
 
 
+def killed_producers(run, har):
+    """black-box: a consumer never starts after its producer's command died from a signal (the classification of how a command
+    ended lives in process_posix.rs, which the scripted executor bypasses)"""
+    import taskleg
+    n2, out_ = build_n2_binary()
+    if n2 is None:
+        run.tie("n2 build", out_[-1000:])
+    else:
+        run.coverage["black_box_killed_producers"] = taskleg.killed_command_leg(run, n2, random.Random(1))
+
+
 def main(tier, seed, replay=None):
     return sched_check(PROP, THEOREMS, tier, seed, [monitor_c01], extra_modules=["Model.All", "Proofs.SchedSpec", "Proofs.SchedInv", "Proofs.SchedLive", "Proofs.SchedRunThms"],
-                       replay=replay, scen_gen=gen_sched_or_regen)
+                       replay=replay, scen_gen=gen_sched_or_regen, probes=killed_producers)
